@@ -104,7 +104,17 @@ func leanCase(c Case, impl string) (string, bool) {
 				return "", false
 			}
 		}
-		return c.ID + "\trun\t" + ast + "\t" + c.Fields[1], true
+		res := ""
+		for _, part := range strings.Split(impl, "\t") {
+			if strings.HasPrefix(part, "RES ") {
+				res = part[4:]
+			}
+		}
+		line := c.ID + "\trun\t" + ast + "\t" + c.Fields[1]
+		if strings.HasPrefix(res, "OK") {
+			line += "\t" + res
+		}
+		return line, true
 	}
 	if f, ok := leanCaseExtra[c.Op]; ok {
 		return f(c, impl)
